@@ -103,6 +103,14 @@ short = {
  "C18-5":"`GetNSQDProducers` continues after a failed `/info` - two errors per dead node, phantom node entries",
  "C19-5":"gzip `Sync()` overwrites the fsync error with the (nil) error of `NewWriterLevel`",
  "C20-5":"to_nsq drops the publish error of a final record without a trailing delimiter",
+ "C01-6":"`GetTopic` starts the pump via `defer` - also on the early return taken while loading metadata, i.e. before the topic's channels are re-created",
+ "C02-6":"`StartInFlightTimeout` records `deliveryTS` only on the first delivery - a TOUCH on a redelivery is capped from the first one and can shorten the holder's timeout",
+ "C03-6":"client pump clears the region hand-off channel only for zone-local clients - a region-local consumer keeps receiving while not ready",
+ "C05-6":"`Channel.flush` returns early when nothing is in memory or in flight - deferred messages are not written at shutdown",
+ "C06-6":"`GetMetadata` leaves out exiting channels - a persist that runs after `Exit` closed the topics writes empty channel lists",
+ "C08-6":"`Topic.Empty` returns early at depth 0 - deleting a drained topic leaves its disk-queue files (and stale metadata) behind",
+ "C14-6":"`/topic/delete` returns early when the topic registration is gone - channel registrations of a vanished ephemeral topic stay",
+ "C16-6":"lookupLoop skips a channel's UNREGISTER when its topic is gone - with a late topic notification turned into REGISTER the channel stays registered",
 }
 print("| seed | change (one line) | needs | reported by |")
 print("|---|---|---|---|")
